@@ -92,7 +92,7 @@ def gen_case(rng, idx, sdir):
         return out
 
     def tsec(name, depth):
-        s = S(name, rng.choice(["t", "u"]), props(rng.choice([0, 1, 2]), "tp"),
+        s = S(name, rng.choice(["t", "u", "Hardware/Amplifier", "Mixed Case", "UPPER"]), props(rng.choice([0, 1, 2]), "tp"),
               definition=rng.choice([None, "target def"]), reference=rng.choice([None, "tref"]))
         if depth > 0:
             s["sections"] = [tsec("%s_%d" % (name, i), depth - 1) for i in range(rng.choice([0, 1, 2]))]
@@ -100,19 +100,23 @@ def gen_case(rng, idx, sdir):
     targets = [tsec("T%d" % i, rng.choice([0, 1, 2])) for i in range(rng.choice([1, 2, 3]))]
     zone_t = S("targets", "zone", [], targets)
     tpaths = [("targets",) + p for p, _ in all_secs(zone_t)]
-    ext = None
-    ext_targets = []
-    if rng.random() < 0.4:
-        ext_secs = [tsec("E%d" % i, rng.choice([0, 1])) for i in range(rng.choice([1, 2]))]
-        ext = {"k": "doc", "id": None, "author": None, "version": None, "date": None, "repository": None,
-               "sections": ext_secs}
-        ext_targets = [p for p, _ in all_secs(ext)]
+    exts = []
+    if rng.random() < 0.45:
+        for k in range(rng.choice([1, 2, 2])):
+            ext_secs = [tsec("E%d" % i, rng.choice([0, 1])) for i in range(rng.choice([1, 2]))]
+            exts.append({"k": "doc", "id": None, "author": None, "version": None, "date": None, "repository": None,
+                         "sections": ext_secs})
+    ext = exts[0] if exts else None
     nlinks = rng.choice([1, 1, 2, 3, 4])
     linkers = []
     links = []
     for i in range(nlinks):
         mode = rng.choice(["empty", "other-names", "other-names", "same-names"])
-        use_ext = ext is not None and rng.random() < 0.5
+        use_ext = ext is not None and rng.random() < 0.6
+        which = rng.randrange(len(exts)) if use_ext else 0
+        if use_ext:
+            ext = exts[which]
+            ext_targets = [p for p, _ in all_secs(ext)]
         depth = rng.choice([0, 1, 2])
         lpath = ("linkers",) + tuple("h%d_%d" % (i, d) for d in range(depth)) + ("L%d" % i,)
         if use_ext:
@@ -138,8 +142,8 @@ def gen_case(rng, idx, sdir):
             how = rng.choice(["url#path", "url#path", "url-only"])
             if how == "url-only":
                 tp = (ext["sections"][0]["name"],)
-            L["include"] = "@EXT@" + ("#/" + "/".join(tp) if how == "url#path" else "")
-            links.append({"linker": list(lpath), "kind": "include", "target": list(tp), "mode": mode})
+            L["include"] = "@EXT%d@" % which + ("#/" + "/".join(tp) if how == "url#path" else "")
+            links.append({"linker": list(lpath), "kind": "include", "target": list(tp), "mode": mode, "ext": which})
         else:
             if rng.random() < 0.5:
                 L["link"] = "/" + "/".join(tp)
@@ -155,7 +159,7 @@ def gen_case(rng, idx, sdir):
     if rng.random() < 0.5:
         top.reverse()
     doc = {"k": "doc", "id": None, "author": "a", "version": None, "date": None, "repository": None, "sections": top}
-    return {"doc": enc(doc), "ext": enc(ext) if ext else None, "links": links, "i": idx}
+    return {"doc": enc(doc), "ext": [enc(e) for e in exts] if exts else None, "links": links, "i": idx}
 
 
 def section_at(doc, path):
@@ -178,23 +182,28 @@ def run_case(case, ctx, sdir):
     from odml import terminology
     rec = ctx.rec
     rec.evaluation()
-    docspec, ext = dec(case["doc"]), dec(case["ext"]) if case["ext"] else None
+    docspec = dec(case["doc"])
+    exts = [dec(e) for e in case["ext"]] if case["ext"] else []
     with warnings.catch_warnings():
         warnings.simplefilter("ignore")
-        url = None
-        if ext is not None:
+        urls = []
+        for k, ext in enumerate(exts):
             extdoc = gen.build_doc(ext)
-            path = os.path.join(sdir, "ext_%s_%d_%d.xml" % (ctx.seed, case["i"], os.getpid()))
+            # every resource has the same base name; only the directory differs
+            d = os.path.join(sdir, "c12ext", "%s_%d_%d_%d" % (ctx.seed, case["i"], os.getpid(), k))
+            os.makedirs(d, exist_ok=True)
+            path = os.path.join(d, "resource.xml")
             odml.save(extdoc, path)
-            url = "file://" + path
+            urls.append("file://" + path)
 
-            def patch(s):
-                if s.get("include"):
-                    s["include"] = s["include"].replace("@EXT@", url)
-                for c in s["sections"]:
-                    patch(c)
-            for s in docspec["sections"]:
-                patch(s)
+        def patch(s):
+            if s.get("include"):
+                for k, u in enumerate(urls):
+                    s["include"] = s["include"].replace("@EXT%d@" % k, u)
+            for c in s["sections"]:
+                patch(c)
+        for s in docspec["sections"]:
+            patch(s)
         doc = gen.build_doc(docspec)
         from checks.c01_xml import no_ids
         links = case["links"]
@@ -207,7 +216,7 @@ def run_case(case, ctx, sdir):
                 r = resolve(m0, l["linker"], L["link"])
                 if r != l["target"]:
                     raise AssertionError("generator/resolver disagree: %r %r" % (r, l))
-        rec.case(core.h([enc(no_ids(docspec)), enc(no_ids(ext)) if ext else None]), True)
+        rec.case(core.h([enc(no_ids(docspec)), [enc(no_ids(e)) for e in exts]]), True)
         # ---- finalize
         try:
             doc.finalize()
@@ -215,8 +224,8 @@ def run_case(case, ctx, sdir):
             rec.violation("finalize/raised-%s" % type(exc).__name__, repr(exc), case)
             return
         m1 = model.model_of(doc)
-        term_doc = terminology.terminologies.get(url) if url else None
-        term_m = model.model_of(term_doc) if term_doc is not None else None
+        term_docs = [terminology.terminologies.get(u) for u in urls]
+        term_ms = [model.model_of(t) if t is not None else None for t in term_docs]
         rec.monitor("finalize")
         linker_paths = [tuple(l["linker"]) for l in links]
         for l in links:
@@ -224,10 +233,14 @@ def run_case(case, ctx, sdir):
             if l["kind"] == "link":
                 T = find_path(m0, l["target"])
             else:
+                term_m = term_ms[l.get("ext", 0)]
                 if term_m is None:
-                    rec.violation("finalize/include-resource-not-cached", "%r" % url, case)
+                    rec.violation("finalize/include-resource-not-cached", "%r" % urls[l.get("ext", 0)], case)
                     continue
                 T = find_path(term_m, l["target"])
+                if T is None:
+                    rec.violation("finalize/include/cached-resource-lacks-target", "%r" % (l["target"],), case)
+                    continue
             if T["properties"] or T["sections"]:
                 nontriv = True
             rec.count("links", "%s/%s" % (l["kind"], l["mode"]))
@@ -272,7 +285,9 @@ def run_case(case, ctx, sdir):
             for ca, cb in zip(ma["sections"], mb["sections"]):
                 outside(ca, cb, path + [ca["name"]])
         outside(m0, m1, [])
-        if term_doc is not None:
+        for term_doc, term_m, url in zip(term_docs, term_ms, urls):
+            if term_doc is None:
+                continue
             # the included resource (a cached document) must be untouched as well
             term_after = model.model_of(term_doc)
             if model.diff(term_m, term_after):
